@@ -58,6 +58,10 @@ CLAIMS = {
          "whenever the real StreamJoin / OuterJoin emits watermark W its consolidated output equals the join of the input records with event time <= W, emitted watermarks never decrease, and at end of stream "
          "the output equals the join of the complete inputs. Schedule-dependent counterexamples are replayed natively through the `verif` hook that fixes the receive order.",
          "Bounds: 2 (quick) / 3 (thorough) messages per input, keys over all Int values or NULL, event times 1..TCH s after the input's watermark.", "§5 C19"),
+ "C08": ("For every function name and overload accepted by the real typechecker over a universe of argument types (each optionally nullable), and for And/Or/Coalesce/TypeCast/Tuple/field access, the value the real Materialize + Evaluate produce on arbitrary conforming symbolic arguments matches the static type the typechecker reported (independent `matches`).",
+         "Bounds: argument types of depth <= 1 (TS=1 quick / 2 thorough), strings <= 2 bytes, containers <= 1-2 elements; like/~/~*/now/parse_time typechecked but not evaluated; aggregate output types and whole queries outside.", "§5 C08"),
+ "C13": ("For every overload of the arithmetic operators on Int/Float/Duration/Time/String, abs/ceil/floor/sqrt (exact IEEE via the FP theory; log/pow plumbing only), int()/float()/string(), time_from_unix/time_to_unix, IN/NOT IN, list indexing and COALESCE, the real closures return what small definitional references state, for all 64-bit argument values within the bounds (failed parses -> NULL, time_to_unix(time_from_unix(x)) = x, COALESCE = first non-NULL).",
+         "Bounds: strings <= 3 bytes, lists <= 2-3 elements, time_from_unix(Float) for |x| < 4; inputs that raise query errors (division by zero, negative counts/indices) assumed away; parse_time, now, string() rendering outside.", "§5 C13"),
  "C09": ("For every pair/triple of octosql values within the bounds (all 2^64 bit patterns per Int/Float/Duration leaf, every byte value per string byte, "
          "containers to the stated depth) the solver shows Compare is reflexive, antisymmetric, transitive, Equal agrees with it and compare-equal values "
          "hash equally (Value.Hash, the hash step used by containers and HashManyValues). Bounded model checking of the real functions; right level because the "
